@@ -274,7 +274,7 @@ func init() {
 			set := []string{"W:Incarnation", "W:Meta", "W:Addr", "W:Port", "BCAST", "TIMERDEL"}
 			nset := 0
 			for _, k := range set {
-				if ex.Seen[k] > 0 {
+				if ex.Seen[k] > 0 || (k == "TIMERDEL" && ex.Cube[vTimer] == "F") {
 					nset++
 				}
 			}
@@ -333,7 +333,7 @@ func (c *Ctx) existsRow(hm *handlerModel, key, rule string, cls []string, vars [
 				}
 				all := true
 				for _, k := range cls {
-					if ex.Seen[k] == 0 {
+					if ex.Seen[k] == 0 && !(k == "TIMERDEL" && ex.Cube[vTimer] == "F") {
 						all = false
 						break
 					}
